@@ -5,6 +5,7 @@ package manager
 
 import (
 	"fmt"
+	"maps"
 	"sort"
 	"strings"
 	"testing"
@@ -16,6 +17,7 @@ import (
 	"github.com/tink-crypto/tink-go/v2/aead/chacha20poly1305"
 	"github.com/tink-crypto/tink-go/v2/insecurecleartextkeyset"
 	"github.com/tink-crypto/tink-go/v2/insecuresecretdataaccess"
+	"github.com/tink-crypto/tink-go/v2/internal/internalapi"
 	"github.com/tink-crypto/tink-go/v2/internal/protoserialization"
 	"github.com/tink-crypto/tink-go/v2/key"
 	"github.com/tink-crypto/tink-go/v2/keyset"
@@ -39,7 +41,7 @@ func TestMain(m *testing.M) {
 	core.DeclareProbes("redraw-loop-taken", "start-from-parsed-handle", "branch-to-earlier-handle", "refused-disable-primary", "refused-delete-primary",
 		"refused-setprimary-nonenabled", "op-on-absent-id", "addkey-idreq-collision", "addkey-idreq-kept", "same-key-twice", "readd-deleted-fixed-id",
 		"handle-fails-no-primary", "old-handle-reinspected", "enable-destroyed", "error-leaves-unchanged-checked", "nil-template", "unknown-prefix-template", "add-custom-key-type(legacy NewKeyData path)", "malformed-start-keyset-refused",
-		"add-catalog-entry", "add-catalog-entry-with-id-requirement-but-no-prefix")
+		"add-catalog-entry", "add-catalog-entry-with-id-requirement-but-no-prefix", "annotations-changed")
 	// "add-refused-after-scripted-collisions" and "manager-designated-primary-itself" cannot occur on today's tree; they
 	// are counted if an otherwise conforming manager ever does that
 	stubkm.Register()
@@ -136,6 +138,7 @@ type snapshot struct {
 	keys  []key.Key
 	model *model
 	str   string
+	ann   map[string]string // the handle's annotations when it was obtained (copied)
 }
 
 // ---------------------------------------------------------------------------
@@ -354,7 +357,7 @@ func (w *world) compare(h *keyset.Handle, m *model, ctx string) {
 }
 
 func (w *world) snap(h *keyset.Handle) {
-	s := &snapshot{h: h, info: h.KeysetInfo(), model: w.m.clone(), str: h.String()}
+	s := &snapshot{h: h, info: h.KeysetInfo(), model: w.m.clone(), str: h.String(), ann: maps.Clone(h.Annotations(internalapi.Token{}))}
 	for i := 0; i < h.Len(); i++ {
 		e, _ := h.Entry(i)
 		s.ids = append(s.ids, e.KeyID())
@@ -386,6 +389,9 @@ func (w *world) recheck(s *snapshot, idx int) {
 	}
 	if !proto.Equal(h.KeysetInfo(), s.info) {
 		w.r.Violation("C11/old-handle-changed", fmt.Sprintf("%s: KeysetInfo differs from the one taken when the handle was obtained", ctx))
+	}
+	if !maps.Equal(h.Annotations(internalapi.Token{}), s.ann) {
+		w.r.Violation("C11/old-handle-changed", fmt.Sprintf("%s: annotations are now %v, were %v when the handle was obtained", ctx, h.Annotations(internalapi.Token{}), s.ann))
 	}
 	w.compare(h, s.model.clone(), ctx)
 }
@@ -423,7 +429,7 @@ func runManager(t *rapid.T) {
 		maxOps = 300
 	}
 	nOps := rapid.IntRange(1, maxOps).Draw(t, "nOps")
-	ops := []string{"Add", "Add", "Add", "AddBad", "AddKey", "AddKey", "AddParams", "SetPrimary", "SetPrimary", "Enable", "Disable", "Disable", "Delete", "Delete", "Handle", "Branch", "Recheck"}
+	ops := []string{"Add", "Add", "Add", "AddBad", "AddKey", "AddKey", "AddParams", "SetPrimary", "SetPrimary", "Enable", "Disable", "Disable", "Delete", "Delete", "Handle", "Branch", "Recheck", "SetAnnotations"}
 	for i := 0; i < nOps; i++ {
 		op := rapid.SampledFrom(ops).Draw(t, "op")
 		w.step(op)
@@ -709,6 +715,23 @@ func (w *world) step(op string) {
 		} else {
 			r.Probe("error-leaves-unchanged-checked")
 		}
+	case "SetAnnotations":
+		// not one of the operations C11 lists, but a "later manager operation" all the same: whether the keyset is
+		// annotated must change nothing about what Handle() returns for it, and must not reach handles obtained earlier
+		var ann map[string]string
+		switch rapid.IntRange(0, 3).Draw(t, "annotations") {
+		case 1:
+			ann = map[string]string{"sim": "manager"}
+		case 2:
+			ann = map[string]string{"sim": "manager-2", "zone": "b"}
+		case 3:
+			ann = map[string]string{}
+		}
+		var err error
+		func() { defer w.catch("SetAnnotations"); err = w.mgr.SetAnnotations(ann) }()
+		r.Logf("SetAnnotations(%v) -> err=%v   [%s]", ann, err, before)
+		w.note("SetAnnotations", err)
+		r.Probe("annotations-changed")
 	case "SetPrimary", "Enable", "Disable", "Delete":
 		id := w.drawID("id")
 		me := w.m.find(id)
